@@ -53,6 +53,7 @@ def gen(rng, tier):
     k = 0
     n_entry = rng.randint(2, 6)
     p_fault = rng.choice([0.0, 0.2, 0.4])
+    p_crash = rng.choice([0.0, 0.0, 0.15])
     for _ in range(n_entry):
         if rng.random() < p_fault:
             r = rng.random()
@@ -67,6 +68,8 @@ def gen(rng, tier):
         subj = x if not returned or rng.random() < 0.7 else rng.choice(returned)
         e = rng.choice(ENTRY_EVENTS)
         sched = H.rand_sched(rng)
+        if rng.random() < p_crash and e.startswith("compute:"):
+            sched["fail_at"] = rng.randint(0, 8)  # this run dies before its k-th task; asked again later
         k += 1
         if e.startswith("compute:"):
             hist.append(dict({"ev": "compute", "var": subj, "entry": e.split(":")[1]}, **sched))
@@ -251,6 +254,11 @@ def execute(case, stats, log):
             out = m.apply(ev)
         except Violation:
             raise
+        except G.fakes.InjectedTaskFailure:
+            # injected crash in the middle of this entry point's run: nothing returned; later entry
+            # points on the same collections must be unaffected
+            log.append([i, ev["ev"], var, "crashed"])
+            continue
         except Exception as e:  # noqa: BLE001
             if ev["ev"] in ("build", "derive"):
                 raise Invalid(f"{ev['ev']} raised {type(e).__name__}: {str(e)[:200]}")
